@@ -17,7 +17,9 @@ ForA  == {<<>>, <<Entry("a", "ident", "lit", Lit(S(<<120>>)))>>, <<Entry("a", "i
           <<Entry("a", "computed_lit", "lit", Lit(S(<<99>>)))>>, <<Entry("a", "str", "expr", ArrLit(<<Lit(Num(1))>>))>>}
 ForB  == {<<>>, <<Entry("b", "ident", "lit", Lit(Num(7)))>>, <<Entry("b", "ident", "expr", Call("gb", Num(8)))>>}
 ForCb == {<<>>, <<Entry("cb", "ident", "fn", Lit(Num(1)))>>, <<Entry("cb", "ident", "method", Lit(Num(2)))>>,
-          <<Entry("cb", "ident", "async_method", Lit(Num(3)))>>, <<Entry("cb", "ident", "expr", Ident("fcb", FALSE, FnR("dcb", Num(4))))>>}
+          <<Entry("cb", "ident", "async_method", Lit(Num(3)))>>,
+          <<Entry("cb", "ident", "shorthand", Ident("cb", TRUE, FnR("dcb2", Num(5))))>>,     \* { cb } with cb a function in scope
+          <<Entry("cb", "ident", "expr", Ident("fcb", FALSE, FnR("dcb", Num(4))))>>}
 ForQ  == {<<>>, <<Entry("q-k", "str", "lit", Lit(S(<<113>>)))>>}
 (* u?: (() => void) | string — a union that includes Function: Vue still calls a function default as a factory *)
 ForU  == {<<>>, <<Entry("u", "ident", "expr", Ident("fu", FALSE, FnR("du", Num(5))))>>, <<Entry("u", "ident", "fn", Lit(Num(6)))>>}
